@@ -413,7 +413,7 @@ pub fn handle_crash<S: Scenario>(cfg: &RunCfg, signal: i32, run: u64, ctx: [u64;
     });
     std::fs::write(&path, serde_json::to_string_pretty(&doc).unwrap()).unwrap();
     // confirm from the file
-    let back: Value = serde_json::from_str(&std::fs::read_to_string(&path).unwrap()).unwrap();
+    let back: Value = crate::runner::json_parse(&std::fs::read_to_string(&path).unwrap()).unwrap();
     let t2: S::Trace = serde_json::from_value(back["trace"].clone()).unwrap();
     let tmp2 = format!("{}/.cand2-{}.json", cfg.replay_dir, std::process::id());
     let ok = crashes::<S>(&t2, &tmp2, &crash_file).is_some();
